@@ -243,7 +243,7 @@ pub(crate) fn parse_coins(v: &Value) -> Result<Vec<Coin>, String> {
 }
 
 impl Sim {
-    fn new(which: Which, prefix: &str, addr: &str) -> Sim {
+    fn new(which: Which, prefix: &str, addr: &str, chain_id: &str) -> Sim {
         let deps = OwnedDeps {
             storage: SnapStorage::default(),
             api: ChainApi {
@@ -257,7 +257,7 @@ impl Sim {
             block: BlockInfo {
                 height: 12_345,
                 time: Timestamp::from_nanos(1_571_797_419_879_305_533),
-                chain_id: "osmosis-1".to_string(),
+                chain_id: chain_id.to_string(),
             },
             transaction: Some(TransactionInfo { index: 3 }),
             contract: ContractInfo {
@@ -688,6 +688,7 @@ fn main() {
                     which,
                     req["chain_prefix"].as_str().unwrap_or("osmo"),
                     req["addr"].as_str().unwrap_or("cosmos2contract"),
+                    req["chain_id"].as_str().unwrap_or("osmosis-1"),
                 ));
                 json!({"ok": null})
             }
@@ -698,6 +699,7 @@ fn main() {
                     req["addr"].as_str().unwrap_or(""),
                     t,
                     req["height"].as_u64().unwrap_or(1),
+                    req["chain_id"].as_str().unwrap_or("osmosis-1"),
                 ));
                 json!({"ok": null})
             }
@@ -746,7 +748,7 @@ fn main() {
                 Some(s) => s.handle(&req),
                 None => {
                     if req["op"].as_str() == Some("pure") || req["op"].as_str() == Some("proto") {
-                        let mut tmp = Sim::new(Which::Staking, "osmo", "osmo1contract");
+                        let mut tmp = Sim::new(Which::Staking, "osmo", "osmo1contract", "osmosis-1");
                         tmp.handle(&req)
                     } else {
                         json!({"bad": "reset first"})
